@@ -31,7 +31,7 @@ class VmTools:
     def __init__(self, variant="plain"):
         self.lib = common.repobuild(variant)
         self.bcdump = common.cc_driver("bcdump", ["vm/bcdump.c"], self.lib)
-        ok, log = common.ocaml_build()
+        ok, log = common.ocaml_build("verifier")
         if not ok:
             raise common.BuildError("ocaml build failed:\n" + log[-3000:])
         self.vrun = os.path.join(common.BUILD, "ocaml", "verifier", "run")
